@@ -1,4 +1,5 @@
 import RsModel.Model.Combined
+import RsModel.Lemmas.PosComb
 /-!
 # C09 — combined source maps compose outer and inner attribution
 (the pass-through and removal branches; the composition through the inner map is tied by correspondence)
@@ -36,5 +37,114 @@ theorem c09_bisect_le (segs : List InnerSeg) (col : Int) : ∀ (fuel l r : Nat),
       · exact ih _ _ (by omega) h2
       · exact ih _ _ (by omega) (by omega)
     · omega
+
+
+theorem globalSource_noChunk' (sm : Assoc) (s : Text) (c : Option Text) : ∀ e ∈ (globalSource sm s c).2.1, e.isChunk = false := by
+  unfold globalSource; split <;> simp [Ev.isChunk]
+
+theorem globalName_noChunk' (nm : Assoc) (n : Text) : ∀ e ∈ (globalName nm n).2.1, e.isChunk = false := by
+  unfold globalName; split <;> simp [Ev.isChunk]
+
+/-! ## the search for the inner segment -/
+
+/-- the segments of one inner line are sorted by generated column (they are recorded in stream order, and streams are sorted: C02) -/
+def SegsSorted (segs : List InnerSeg) : Prop := ∀ i j, i ≤ j → j < segs.length → (segs.getD i default).gc ≤ (segs.getD j default).gc
+
+/-- **the hand-written bisection of `find_inner_mapping` is correct**: on a sorted line it returns the number of segments whose
+generated column is at or before `col` — so `l - 1` is the greatest such segment -/
+theorem c09_bisect_spec (segs : List InnerSeg) (col : Int) (hs : SegsSorted segs) : ∀ (fuel l r : Nat), l ≤ r → r ≤ segs.length → r - l < fuel →
+    (∀ i, i < l → (segs.getD i default).gc ≤ col) → (∀ i, r ≤ i → i < segs.length → col < (segs.getD i default).gc) →
+    (∀ i, i < bisect segs col fuel l r → (segs.getD i default).gc ≤ col)
+    ∧ (∀ i, bisect segs col fuel l r ≤ i → i < segs.length → col < (segs.getD i default).gc) := by
+  intro fuel
+  induction fuel with
+  | zero => intro l r _ _ h; omega
+  | succ n ih =>
+    intro l r h1 h2 h3 hlo hhi
+    simp only [bisect]
+    split
+    · rename_i hlr
+      split
+      · rename_i hm
+        apply ih _ _ (by omega) h2 (by omega)
+        · intro i hi
+          exact Int.le_trans (hs i ((l + r) / 2) (by omega) (by omega)) hm
+        · exact hhi
+      · rename_i hm
+        apply ih _ _ (by omega) (by omega) (by omega) hlo
+        intro i hi hlen
+        have := hs ((l + r) / 2) i hi hlen
+        omega
+    · have : l = r := by omega
+      subst this
+      exact ⟨hlo, hhi⟩
+
+/-- `find_inner_mapping` returns the greatest segment of the line at or before the column, and none exactly when there is none -/
+theorem c09_findInner_spec (st : CombSt) (line column : Int) (h1 : 0 < line) (h2 : line.toNat ≤ st.lineData.length)
+    (hs : SegsSorted (st.lineData.getD (line.toNat - 1) default).segs) :
+    (∀ idx, findInner st line column = some idx →
+        idx < (st.lineData.getD (line.toNat - 1) default).segs.length
+        ∧ ((st.lineData.getD (line.toNat - 1) default).segs.getD idx default).gc ≤ column
+        ∧ ∀ j, idx < j → j < (st.lineData.getD (line.toNat - 1) default).segs.length → column < ((st.lineData.getD (line.toNat - 1) default).segs.getD j default).gc)
+    ∧ (findInner st line column = none → ∀ j, j < (st.lineData.getD (line.toNat - 1) default).segs.length → column < ((st.lineData.getD (line.toNat - 1) default).segs.getD j default).gc) := by
+  have hcond : ¬ (line ≤ 0 ∨ line.toNat > st.lineData.length) := by omega
+  have hsp := c09_bisect_spec (st.lineData.getD (line.toNat - 1) default).segs column hs
+    ((st.lineData.getD (line.toNat - 1) default).segs.length + 1) 0 (st.lineData.getD (line.toNat - 1) default).segs.length
+    (Nat.zero_le _) (Nat.le_refl _) (by omega) (fun i hi => by omega) (fun i hi hlen => by omega)
+  have hle := c09_bisect_le (st.lineData.getD (line.toNat - 1) default).segs column
+    ((st.lineData.getD (line.toNat - 1) default).segs.length + 1) 0 (st.lineData.getD (line.toNat - 1) default).segs.length (Nat.zero_le _) (Nat.le_refl _)
+  unfold findInner
+  simp only [hcond, if_false]
+  constructor
+  · intro idx h
+    split at h
+    · cases h
+    · rename_i hne
+      simp only [Option.some.injEq] at h
+      subst h
+      exact ⟨by omega, hsp.1 _ (by omega), fun j hj hlen => hsp.2 j (by omega) hlen⟩
+  · intro h j hj
+    split at h
+    · rename_i h0
+      exact hsp.2 j (by omega) hj
+    · cases h
+
+/-! ## composition -/
+
+/-- **composition**: an outer chunk that points into the inner source at `(o.line, o.col)`, for which the search finds the inner
+segment `seg` (mapped: `seg.src ≥ 0`), is delivered — same text, same generated position — attributed to the file the inner
+segment names (translated to its global index), to the inner segment's original line, and to a column that is the inner
+segment's column or that column plus the offset `o.col - seg.gc` into the segment (the latter only when the recorded content
+matches, `combAdj`) -/
+theorem c09_compose_chunk (cfg : CombCfg) (st : CombSt) (text : Option Text) (m : Mapping) (o : Orig) (ho : m.orig = some o)
+    (hsrc : (o.src : Int) = st.innerSourceIndex) (idx : Nat) (hfind : findInner st o.line o.col = some idx)
+    (hmapped : ((st.lineData.getD (o.line - 1) {}).segs.getD idx default).src ≥ 0) :
+    ∃ pre out, (combOnChunk cfg st text m).2 = pre ++ [Ev.chunk text ⟨m.gl, m.gc, out⟩] ∧ evsKeys pre = []
+      ∧ ∀ y, out = some y →
+          y.line = ((st.lineData.getD (o.line - 1) {}).segs.getD idx default).line.toNat
+          ∧ (y.col = ((st.lineData.getD (o.line - 1) {}).segs.getD idx default).col.toNat
+             ∨ y.col = (((st.lineData.getD (o.line - 1) {}).segs.getD idx default).col
+                          + ((o.col : Int) - ((st.lineData.getD (o.line - 1) {}).segs.getD idx default).gc)).toNat) := by
+  have e1 : ((o.line : Int)).toNat - 1 = o.line - 1 := by simp
+  simp only [combOnChunk, ho, hsrc, beq_self_eq_true, if_true, hfind, e1]
+  rw [if_pos hmapped]
+  simp only [combFound]
+  refine ⟨_, _, rfl, ?_, ?_⟩
+  · rw [evsKeys_append, combSrcResolve_keys, combNameResolve_keys]; rfl
+  · intro y hy
+    split at hy
+    · simp only [Option.some.injEq] at hy
+      subst hy
+      refine ⟨rfl, ?_⟩
+      simp only
+      split
+      · exact Or.inr rfl
+      · exact Or.inl rfl
+    · cases hy
+
+/-- where the inner map has no mapping and removal of the original source is requested, the chunk is left unmapped -/
+theorem c09_no_inner_removed (cfg : CombCfg) (st : CombSt) (text : Option Text) (m : Mapping) (a b c d : Int) (h : cfg.remove = true) :
+    (combNoInner cfg st text m a b c d).2 = [Ev.chunk text ⟨m.gl, m.gc, none⟩] := by
+  simp [combNoInner, h]
 
 end Rs
